@@ -658,13 +658,21 @@ impl ToolCallCollector {
                         .unwrap_or_default();
 
                     if let (Some(call_id), Some(name)) = (call_id, name) {
-                        self.completed_function_calls.push(FunctionCallItem {
-                            output_index,
-                            call_id,
-                            item_id: Some(item_id.clone()),
-                            name,
-                            arguments,
-                        });
+                        // A response may announce the same call more than once (repeated
+                        // `output_item.done`, or two items sharing a call id): run and answer it once.
+                        let already_completed = self
+                            .completed_function_calls
+                            .iter()
+                            .any(|call| call.call_id == call_id);
+                        if !already_completed {
+                            self.completed_function_calls.push(FunctionCallItem {
+                                output_index,
+                                call_id,
+                                item_id: Some(item_id.clone()),
+                                name,
+                                arguments,
+                            });
+                        }
                     }
                 }
             }
